@@ -389,6 +389,17 @@ string Subprocess::communicate(
   size_t stdin_offset = 0;
   size_t stdout_bytes = 0;
   deque<string> stdout_queue;
+  auto read_stdout = [&]() {
+    stdout_queue.emplace_back(read(this->stdout_read_fd, 4096));
+    if (stdout_queue.back().empty()) {
+      stdout_queue.pop_back();
+      p.remove(this->stdout_read_fd, true);
+      this->stdout_read_fd = -1;
+    } else {
+      stdout_bytes += stdout_queue.back().size();
+    }
+  };
+
   // A deadline of zero means there is no deadline
   bool timed_out = false;
   while (this->wait(true) < 0) {
@@ -415,13 +426,7 @@ string Subprocess::communicate(
     auto events = p.poll(timeout_ms);
 
     if (events.count(this->stdout_read_fd)) {
-      stdout_queue.emplace_back(read(this->stdout_read_fd, 4096));
-      if (stdout_queue.back().empty()) {
-        p.remove(this->stdout_read_fd, true);
-        this->stdout_read_fd = -1;
-      } else {
-        stdout_bytes += stdout_queue.back().size();
-      }
+      read_stdout();
     }
     if (events.count(this->stdin_write_fd)) {
       size_t bytes_remaining = stdin_size - stdin_offset;
@@ -450,6 +455,17 @@ string Subprocess::communicate(
     // seconds, then send SIGKILL
     this->kill(SIGKILL);
     throw runtime_error("Subprocess::communicate timed out");
+  }
+
+  // The child may have written output just before it exited; collect whatever
+  // is still in the pipe (without blocking, in case another process inherited
+  // the write end and keeps it open)
+  while (this->stdout_read_fd >= 0) {
+    auto events = p.poll(0);
+    if (!events.count(this->stdout_read_fd)) {
+      break;
+    }
+    read_stdout();
   }
 
   if (stdout_queue.empty()) {
